@@ -164,8 +164,12 @@ func (f *Frame) analyzeLoops() {
 			matched := false
 			for _, h := range headers {
 				li := f.loops[h]
-				if li.spec == nil && (li.key == ls.Key || ls.Key == fmt.Sprintf("#%d", li.ordinal)) {
+				prefix := strings.HasSuffix(ls.Key, "...") && strings.HasPrefix(li.key, strings.TrimSuffix(ls.Key, "..."))
+				if li.spec == nil && (li.key == ls.Key || prefix || ls.Key == fmt.Sprintf("#%d", li.ordinal)) {
 					li.spec = ls
+					if prefix {
+						li.key = ls.Key
+					}
 					matched = true
 					break
 				}
@@ -396,6 +400,9 @@ func (f *Frame) locOf(v ssa.Value) (Loc, bool) {
 	case *ssa.FieldAddr:
 		pt := a.X.Type().Underlying().(*types.Pointer)
 		st := pt.Elem()
+		if l, ok := f.elemFieldLoc(a); ok {
+			return l, true
+		}
 		if inner, ok := a.X.(*ssa.FieldAddr); ok {
 			if bl, ok := f.locOf(inner); ok && bl.kind == "field" {
 				_, ft := fieldComp(bl.structT, append(append([]int{}, bl.path...), a.Field))
